@@ -3,7 +3,7 @@ import ErrModel.Props.C01
 /-
   C02 — Error identity (Is/IsAny) is invariant under network transfer.
 
-  Proof idea: a hop preserves the *labelled* shape of an error (text, type mark,
+  Proof idea: a hop preserves the *labelled* shape vf of an error (text, type mark,
   original type name, stored mark, errno Is-signature at every visible layer —
   `hop_ok`), and `Is` depends on the candidate only through that labelled shape
   once object identity is accounted for (`isB_congr_shape`).
@@ -20,7 +20,7 @@ theorem C02_e (vf : Err → Str) (tag k : Nat) (e r : Err) (hst : stable e = tru
     ∃ e', hopsFull vf tag k e = some e' ∧
       (NoIdMatch e' r → is Full e' r = is Full e r) := by
   obtain ⟨e', h1, hs, _⟩ := C01_hops vf tag e hst k
-  exact ⟨e', h1, fun h' => by simp only [is]; rw [isB_congr_shape e e' r hs h h']⟩
+  exact ⟨e', h1, fun h' => by simp only [is]; rw [isB_congr_shape vf e e' r hs h h']⟩
 
 /-- the transferred error is still recognised as itself -/
 theorem C02_self (vf : Err → Str) (tag k : Nat) (e : Err) (hst : stable e = true) (hcoh : NoIdMatch e e) :
@@ -31,7 +31,7 @@ theorem C02_self (vf : Err → Str) (tag k : Nat) (e : Err) (hst : stable e = tr
     obtain ⟨t, ht⟩ := reach_head e
     rw [isB_char, ht]; simp [layerMatch_self]
   simp only [is]
-  rw [isB_congr_shape e e' e hs hcoh h', hrefl]
+  rw [isB_congr_shape vf e e' e hs hcoh h', hrefl]
 
 /-- No layer of `e` matches `r` through an Is method (the exception the property states). -/
 def IdFreeIs (e r : Err) : Prop := ∀ n ∈ reach e, isMethod n r = false
@@ -57,7 +57,7 @@ theorem C02_ref (vf : Err → Str) (tag j : Nat) (e r : Err) (hst : stable r = t
   obtain ⟨r', h1, hs, _⟩ := C01_hops vf tag r hst j
   refine ⟨r', h1, fun hc hc' hf hf' => ?_⟩
   simp only [is]
-  rw [isB_eq_isNoId e r hc, isB_eq_isNoId e r' hc', isNoId_ref_congr e r r' (getMark_congr_shape r r' hs) hf hf']
+  rw [isB_eq_isNoId e r hc, isB_eq_isNoId e r' hc', isNoId_ref_congr e r r' (getMark_congr_shape vf r r' hs) hf hf']
 
 /-- both transferred -/
 theorem C02_both (vf : Err → Str) (tag k tag' j : Nat) (e r : Err) (he : stable e = true) (hr : stable r = true) :
@@ -67,22 +67,22 @@ theorem C02_both (vf : Err → Str) (tag k tag' j : Nat) (e r : Err) (he : stabl
   obtain ⟨r', h2, hs2, _⟩ := C01_hops vf tag' r hr j
   refine ⟨e', r', h1, h2, fun hc hc' hf hf' => ?_⟩
   simp only [is]
-  have hm := getMark_congr_shape r r' hs2
-  rw [isB_eq_isNoId e r hc, isB_eq_isNoId e' r' hc', isNoId_eq_isT, isNoId_eq_isT, hs, hm]
-  -- both sides are `isT` on the same shape and the same reference mark; Is methods are excluded
+  have hm := getMark_congr_shape vf r r' hs2
+  rw [isB_eq_isNoId e r hc, isB_eq_isNoId e' r' hc', isNoId_eq_isT vf, isNoId_eq_isT vf, hs, hm]
+  -- both sides are `isT` on the same shape vf and the same reference mark; Is methods are excluded
   unfold isT
   congr 1
   rw [Bool.eq_iff_iff]
-  have hfT : ∀ n ∈ reachT (shape e), isMethodL n.lbl r = false := by
+  have hfT : ∀ n ∈ reachT (shape vf e), isMethodL n.lbl r = false := by
     intro n hn
-    rw [reachT_shape] at hn
+    rw [reachT_shape vf] at hn
     obtain ⟨m, hm1, hm2⟩ := List.mem_map.mp hn
-    rw [← hm2, shape_lbl, isMethodL_label]; exact hf m hm1
-  have hfT' : ∀ n ∈ reachT (shape e), isMethodL n.lbl r' = false := by
+    rw [← hm2, shape_lbl vf, isMethodL_label]; exact hf m hm1
+  have hfT' : ∀ n ∈ reachT (shape vf e), isMethodL n.lbl r' = false := by
     intro n hn
-    rw [← hs, reachT_shape] at hn
+    rw [← hs, reachT_shape vf] at hn
     obtain ⟨m, hm1, hm2⟩ := List.mem_map.mp hn
-    rw [← hm2, shape_lbl, isMethodL_label]; exact hf' m hm1
+    rw [← hm2, shape_lbl vf, isMethodL_label]; exact hf' m hm1
   simp only [List.any_eq_true, Bool.or_eq_true]
   constructor
   · rintro ⟨n, hn, h | h⟩
